@@ -49,7 +49,11 @@ theorem worldOk'_newMap (D : SlabID → DigestFn 4) (w : World) (ty seed : Nat) 
   have g2' : (w.newMap ty seed cx).2.2.ctr = cx.ctr + 1 := g2
   exact ⟨WorldOk'.up g1 S' (by rw [g2']; omega), g2, g3, g4, g5, S'.handleOk_up g6⟩
 
-/-- `Array.Insert` through a current handle keeps `WorldOk'` (as `C10W.worldOk_arrInsert`). -/
+/-- `Array.Insert` through a current handle keeps `WorldOk'` (as `C10W.worldOk_arrInsert`).
+    (Projection of `worldOk'_arrInsert_all`, Props/C10WAll.lean — the DECIDING statement: it also
+    concludes `HandlesKept` (all current handles stay current, so the theorems chain along a history,
+    `C10Hist.history_invariant`) and the strong frame `AncFrame`; the same for `_arrSet`, `_arrRemove`,
+    `_mapSet`, `_mapRemove`, `_setType` below.) -/
 theorem worldOk'_arrInsert (D : SlabID → DigestFn 4) (w : World) (p : SlabID) (i : Nat) (v : WVal) (cx : Ctx)
     (w' : World) (cx' : Ctx) (H : WorldOk' D w cx.ctr) (hh : HandleOk w p)
     (hv : WValOk w p (maxInlineArr w.T) v) (h : w.arrInsert p i v cx = .ok (w', cx')) :
